@@ -115,7 +115,7 @@ CmdLine(e) ==
     [] c[1] = "release_freeze" -> Ok /\ freezeTo' = Tr.now0 + c[2] + 1 /\ UNCHANGED <<vars, tw, sleepTo>>
     [] c[1] = "send" ->
          IF ~Live THEN Fail("send_to_a_finished_run")
-         ELSE IF c[3] # "x" \o ToString(next) /\ ~Tr.free_uids THEN Fail("external_uid_differs")
+         ELSE IF c[3] \notin {"x" \o ToString(next), "y" \o ToString(next)} /\ ~Tr.free_uids THEN Fail("external_uid_differs")
          ELSE ExtSendUid([ty |-> c[2], target |-> c[4], k |-> c[5]], c[3]) /\ Ok /\ UNCHANGED aux
     [] c[1] = "cancel" ->
          IF ~Live THEN Fail("cancel_of_a_finished_run")
